@@ -334,8 +334,16 @@ func cmdCheck(args []string) {
 				}
 				continue
 			}
-			relevant := hasTag(ob.Tags, *prop) || hasTag(ob.Tags, "support") || hasTag(ob.Tags, "safety")
-			if !relevant {
+			// Every obligation of every function in the property's closure counts: the
+			// closure is "functions with a clause carrying the property's tag, plus what
+			// they call", and a proof of a tagged clause in a caller rests on the whole
+			// contract of each callee, whatever tags the callee's clauses carry. (Six
+			// rounds of seeded changes showed that filtering by tag inside the closure
+			// loses real violations; see DESIGN.md 12.14.) The only exception are the
+			// lock-discipline obligations, which belong to C16 alone and are never
+			// assumed by other proofs.
+			lockOnly := ob.Kind == "guard" || (len(ob.Tags) == 1 && ob.Tags[0] == "C16")
+			if lockOnly && *prop != "C16" {
 				continue
 			}
 			nObl++
